@@ -1,6 +1,8 @@
 """Test-suite traces restricted to Duration operations (see suite.py)."""
 from harness.drivers.suite import expand, run_case  # noqa: F401
 
+CASE_TIMEOUT = 900
+
 
 def jobs(tier, seed):
     return [{"kinds": "DurOp1"}]
